@@ -402,7 +402,9 @@ theorem lt_length_of_getElem? {α} (l : List α) (i : Nat) (x : α) (h : l[i]? =
 
 /-- an operation below key `i` of a multimap -/
 theorem pres_key (C : Ctx) (n : String) (ps hid : List (AS × AS)) (k v : Nat) (ml : Bool) (i : Nat)
-    (a b a' : AS) (u : Up) (hc : ps[i]? = some (a, b)) (hp : Pres C a a' u) :
+    (a b a' : AS) (u : Up) (hc : ps[i]? = some (a, b))
+    (hsnd : ∀ ℓ R, SndG C ℓ a R → SndG C ℓ a' R)
+    (hsync : Quiet C a → u = .no → Quiet C a' ∧ ∀ r, Shows C a r → Shows C a' r) :
     Pres C (.mmap n ps hid k v ml)
       (.mmap n (ps.set i (a', b)) hid (trackerRecv k (maskForIndex i) u).1 v ml) (trackerRecv k (maskForIndex i) u).2 := by
   have hne := ne_nil_of_getElem? ps i _ hc
@@ -410,7 +412,7 @@ theorem pres_key (C : Ctx) (n : String) (ps hid : List (AS × AS)) (k v : Nat) (
   · simp only [SndG, List.length_set] at h ⊢
     rcases h with h | ⟨hf, h⟩ | ⟨hℓ, hml, hk, hl, hR, hlen, h⟩
     · exact absurd h hne
-    · refine Or.inr (Or.inl ⟨?_, sndPairs_lift C ℓ a b a' b (hp.snd ℓ) (fun _ h => h) ps _ i hc h⟩)
+    · refine Or.inr (Or.inl ⟨?_, sndPairs_lift C ℓ a b a' b (hsnd ℓ) (fun _ h => h) ps _ i hc h⟩)
       rcases hf with hf | hf | hf | hf
       · exact Or.inl hf
       · exact Or.inr (Or.inl hf)
@@ -421,19 +423,19 @@ theorem pres_key (C : Ctx) (n : String) (ps hid : List (AS × AS)) (k v : Nat) (
       · subst hu
         refine Or.inr (Or.inr ⟨rfl, hml, by simp [trackerRecv_no], hl, hR, hlen, ?_⟩)
         exact sndVals_lift C a b a' b v v
-          (fun r hs hq hl => ⟨(hp.sync hq rfl).2 r hs, (hp.sync hq rfl).1, hp.snd true none hl⟩) 0 ps _ i hc
+          (fun r hs hq hl => ⟨(hsync hq rfl).2 r hs, (hsync hq rfl).1, hsnd true none hl⟩) 0 ps _ i hc
           (fun _ _ => rfl) (fun _ h => h) h
       · refine Or.inr (Or.inl ⟨Or.inr (Or.inr (Or.inl ?_)), ?_⟩)
         · rw [trackerRecv_zero _ u (maskForIndex_ne_zero i) hu]
           exact maskForIndex_ne_zero i
-        · exact sndPairs_lift C false a b a' b (hp.snd false) (fun _ h => h) ps _ i hc (sndPairs_of_sndVals C v 0 ps _ h)
+        · exact sndPairs_lift C false a b a' b (hsnd false) (fun _ h => h) ps _ i hc (sndPairs_of_sndVals C v 0 ps _ h)
   · simp only [Quiet] at hq ⊢
     rcases hq with hq | ⟨hk, hv, hml, hq⟩
     · exact absurd hq hne
     · subst hk
       have hu0 := trackerRecv_up_no _ u (maskForIndex_ne_zero i) hu
       subst hu0
-      have ih := syncPairs_lift C a b a' b (fun h => hp.sync h rfl) (fun h => ⟨h, fun _ h => h⟩) ps i hc hq
+      have ih := syncPairs_lift C a b a' b (fun h => hsync h rfl) (fun h => ⟨h, fun _ h => h⟩) ps i hc hq
       refine ⟨Or.inr ⟨by simp [trackerRecv_no], hv, hml, ih.1⟩, fun r hs => ?_⟩
       simp only [Shows] at hs ⊢
       obtain ⟨rps, e, hs⟩ := hs
@@ -485,7 +487,9 @@ theorem trackerRecv_val_bits (v i : Nat) (u : Up) (hi : i < 64) :
 
 /-- an operation below value `i` of a multimap -/
 theorem pres_val (C : Ctx) (n : String) (ps hid : List (AS × AS)) (k v : Nat) (ml : Bool) (i : Nat)
-    (a b b' : AS) (u : Up) (hc : ps[i]? = some (a, b)) (hp : Pres C b b' u) :
+    (a b b' : AS) (u : Up) (hc : ps[i]? = some (a, b))
+    (hsnd : ∀ ℓ R, SndG C ℓ b R → SndG C ℓ b' R)
+    (hsync : Quiet C b → u = .no → Quiet C b' ∧ ∀ r, Shows C b r → Shows C b' r) :
     Pres C (.mmap n ps hid k v ml)
       (.mmap n (ps.set i (a, b')) hid k (trackerRecv v (maskForIndex i) u).1 ml) (trackerRecv v (maskForIndex i) u).2 := by
   have hne := ne_nil_of_getElem? ps i _ hc
@@ -494,7 +498,7 @@ theorem pres_val (C : Ctx) (n : String) (ps hid : List (AS × AS)) (k v : Nat) (
   · simp only [SndG, List.length_set] at h ⊢
     rcases h with h | ⟨hf, h⟩ | ⟨hℓ, hml, hk, hl, hR, hlen, h⟩
     · exact absurd h hne
-    · exact Or.inr (Or.inl ⟨hf, sndPairs_lift C ℓ a b a b' (fun _ h => h) (hp.snd ℓ) ps _ i hc h⟩)
+    · exact Or.inr (Or.inl ⟨hf, sndPairs_lift C ℓ a b a b' (fun _ h => h) (hsnd ℓ) ps _ i hc h⟩)
     · subst hℓ
       refine Or.inr (Or.inr ⟨rfl, hml, hk, hl, hR, hlen, ?_⟩)
       obtain ⟨hbits, hno, hset⟩ := trackerRecv_val_bits v i u (by omega)
@@ -505,23 +509,23 @@ theorem pres_val (C : Ctx) (n : String) (ps hid : List (AS × AS)) (k v : Nat) (
       · rw [hno hu]
         by_cases hv : v.testBit i = true
         · simp only [hv, if_true] at hb ⊢
-          exact hp.snd false _ hb
+          exact hsnd false _ hb
         · simp only [hv] at hb ⊢
-          exact ⟨(hp.sync hb.2.1 hu).2 rv hb.1, (hp.sync hb.2.1 hu).1, hp.snd true none hb.2.2⟩
+          exact ⟨(hsync hb.2.1 hu).2 rv hb.1, (hsync hb.2.1 hu).1, hsnd true none hb.2.2⟩
       · rw [hset hu]
         simp only [if_true]
         by_cases hv : v.testBit i = true
         · simp only [hv, if_true] at hb
-          exact hp.snd false _ hb
+          exact hsnd false _ hb
         · simp only [hv] at hb
-          exact hp.snd false _ (snd_of_sync C false b rv hb.1 hb.2.1 hb.2.2)
+          exact hsnd false _ (snd_of_sync C false b rv hb.1 hb.2.1 hb.2.2)
   · simp only [Quiet] at hq ⊢
     rcases hq with hq | ⟨hk, hv, hml, hq⟩
     · exact absurd hq hne
     · subst hv
       have hu0 := trackerRecv_up_no _ u (maskForIndex_ne_zero i) hu
       subst hu0
-      have ih := syncPairs_lift C a b a b' (fun h => ⟨h, fun _ h => h⟩) (fun h => hp.sync h rfl) ps i hc hq
+      have ih := syncPairs_lift C a b a b' (fun h => ⟨h, fun _ h => h⟩) (fun h => hsync h rfl) ps i hc hq
       refine ⟨Or.inr ⟨hk, by simp [trackerRecv_no], hml, ih.1⟩, fun r hs => ?_⟩
       simp only [Shows] at hs ⊢
       obtain ⟨rps, e, hs⟩ := hs
